@@ -6,7 +6,8 @@ _BASE = ("(a) replay of the repository's recorded jq 1.7.1 behaviour (golden cas
          "caught form) through the freshly built `succinctly jq` binary and through the Lean model in its jq-1.7.1 dialect, "
          "each side comparing its own output with the recording embedded in the request; (b) generated core-fragment "
          "programs x inputs through the CLI (stdout values, stderr message, exit status) against the model as oracle, "
-         "programs using a documented divergence (docs/compliance/jq/limitations.md) filtered out")
+         "programs using a documented divergence (docs/compliance/jq/limitations.md) filtered out; includes an order class "
+         "(sort/unique/min/max/group_by/< on same-key-set objects with permuted insertion orders)")
 
 
 def _verdict(req, impl, model):
